@@ -19,7 +19,7 @@ RULE = ('Formulas of the fragment the explainer supports (no since/until; arithm
         'whose other operands are predicates on separate variables with alternating / complementary sign patterns, so that the temporal operator X '
         'is asked to explain several disjoint intervals; each variable occurs once, the formula is monotone in it, and the 8 assignments '
         '"all non-reported samples of a variable at +1000 / -1000" contain the most adversarial one (sufficiency decided exactly); 8-16 traces of '
-        '3-9 samples per parsed formula, a failure is confirmed on a freshly parsed specification. Lane satisfied: rho(phi,w,0) > 0 => nothing is reported. Non-trivial = E does not '
+        '3-9 samples per parsed formula, a failure is confirmed on a freshly parsed specification. Lane satisfied: rho(phi,w,0) > 0 => nothing is reported. Lane modular: some sub-formulas are named requirements of their own (referenced once or several times; one text or add_sub_spec), optionally with a requirement nothing refers to; the specification is read as the set of its requirements (violated at 0 if one of them is, which is when explain() reports something). Non-trivial = E does not '
         'cover every sample of every variable, the formula has >= 1 temporal operator and n >= 2 (two cases in three draw a sampling period of 1 ms .. 2 s and a default unit, bounds then written in ms; some of these objects are first evaluated and explained under a shorter period and re-configured with set_sampling_period()); distinct = distinct (formula, trace) digests.')
 
 ASSUMPTIONS = [
@@ -367,7 +367,134 @@ def candidates(case):
             yield c
 
 
+# ---- specifications with named sub-specifications / several requirements ------------------------------
+
+@st.composite
+def modular_cases(draw, tier):
+    """The formula of a case with some of its sub-formulas hoisted into named requirements (every re-occurrence replaced by
+    the name, so that a name may be referenced twice), optionally a further requirement that nothing refers to."""
+    c = draw(cases(tier, False))
+    f = from_json(c['formula'])
+    cands = sorted(set(x for x in F.subterms(f) if x[0] not in ('var', 'const') and x != f and F.fvars(x)), key=lambda x: (F.size(x), repr(x)))
+    k = min(len(cands), draw(st.sampled_from([1, 1, 2])))
+    subs = []
+    if k:
+        allsub = list(F.subterms(f))
+        weighted = [i for i, x in enumerate(cands) for _ in range(1 + (3 if allsub.count(x) >= 2 else 0) + (1 if F.n_temporal(x) else 0))]
+        subs = [cands[i] for i in sorted(set(draw(st.lists(st.sampled_from(weighted), min_size=k, max_size=k))))]
+    if subs and draw(st.integers(0, 2)) == 0:
+        # the same named requirement referenced at two places with different look-ahead / look-back
+        s0 = subs[-1]
+        f = ('bin', draw(st.sampled_from(['and', 'or', 'implies'])), f, ('un', draw(st.sampled_from(['next', 'prev', 'not', 'eventually', 'once'])), s0))
+        c['formula'] = f
+    extra = None
+    if draw(st.integers(0, 2)) == 0:
+        extra, _ = draw(F.formulas(EXPL.copy(max_depth=3), variables=c['vars']))
+        if not F.fvars(extra):
+            extra = None
+    c['subs'] = subs
+    c['extra'] = extra
+    c['timing'] = None
+    c['delivery'] = draw(st.sampled_from(['assertions', 'add_sub_spec']))
+    return c
+
+
+def check_modular(case):
+    """The specification is the set of its requirements: it is violated at time 0 if one of them has negative robustness
+    there (that is when explain() reports something), satisfied if all are positive."""
+    from ..modular import modular_texts
+    f = from_json(case['formula'])
+    vs = list(case['vars'])
+    tr = {v: [float(x) for x in case['trace'][v]] for v in vs}
+    n = len(tr[vs[0]])
+    subs = [from_json(x) for x in case['subs']]
+    extra = from_json(case['extra']) if case.get('extra') is not None else None
+    reqs = subs + ([extra] if extra is not None else []) + [f]
+    used = sorted(set(v for g in reqs for v in F.fvars(g)))
+    labels = feature_labels(f, n) + ['modular', 'subs:%d' % len(subs)] + (['unreferenced-requirement'] if extra is not None else [])
+    if not F.fvars(f):
+        return DISCARD('no-variable', labels)
+    feed = [v for v in vs if v in used]
+    w = {v: tr[v] for v in feed}
+    try:
+        r = [dt(g, w, n)[0] for g in reqs]
+    except Undefined:
+        return DISCARD('undefined', labels)
+    if min(r) == 0 or (min(r) > 0 and any(x == 0 for x in r)):
+        return PASS(False, labels + ['rho=0:no-verdict'])
+    mc = {'formula': f, 'subs': subs, 'consts': [], 'late_inline': None, 'extra': extra, 'kind': 'dt_off'}
+    bodies, main, _ = modular_texts(mc, lambda g: show(g))
+    if case.get('delivery') == 'add_sub_spec':
+        subspecs = ['%s = %s;' % (nm, t) for nm, t in bodies]
+        text = 'out = ' + main
+    else:
+        subspecs = []
+        text = ' '.join('%s = %s;' % (nm, t) for nm, t in bodies) + ' out = ' + main
+    desc = 'requirements%s: %s | %s\ntrace: %s\nrobustness of the requirements at 0: %s' % (
+        ' (sub-specifications through add_sub_spec)' if subspecs else '', subspecs, text, w, r)
+    try:
+        spec = build('dt_off', text, feed, subspecs=subspecs, dedicated=True)
+        spec.evaluate(dt_dataset(w, None))
+    except Exception as e:  # noqa
+        return DISCARD('evaluate-raises(C09/C17):' + type(e).__name__, labels)
+    try:
+        spec.explain()
+    except Exception as e:  # noqa
+        o = exc_outcome(e)
+        return FAIL('explain-raises:modular:%s' % o[1], desc + '\nexplain() raised %s: %s at %s' % (o[1], o[3], o[4]), labels)
+    expl = spec.explainer.explanations
+    E, bad = explained_positions(expl, feed, n)
+    if min(r) > 0:
+        reported = {v: expl.get(v) for v in feed if expl.get(v)}
+        if reported:
+            return FAIL('satisfied-but-reported:modular', desc + '\nevery requirement is satisfied at time 0 but explanations were reported: %r' % (reported,), labels)
+        return PASS(bool(subs), labels + ['satisfied'])
+    if bad:
+        return FAIL('malformed-interval:modular', desc + '\nreported intervals outside the trace or malformed: %r' % (bad,), labels)
+    shown = {v: sorted(E[v]) for v in feed}
+    for alt in case['alts']:
+        w2 = {}
+        for v in feed:
+            xs = [float(x) for x in alt[v]][:n]
+            xs += [0.0] * (n - len(xs))
+            for i in E[v]:
+                xs[i] = w[v][i]
+            w2[v] = xs
+        try:
+            r2 = [dt(g, w2, n)[0] for g in reqs]
+        except Undefined:
+            continue
+        if min(r2) < 0:
+            continue
+        if any(x == 0 for x in r2):
+            try:
+                if not all(bool_dt(g, w2, n)[0] is True for g in reqs):
+                    continue
+            except Exception:  # noqa
+                continue
+        return FAIL('not-sufficient:modular', desc + '\nreported positions: %s\ntrace agreeing with the original on all reported positions: %s\n'
+                    'robustness of the requirements at time 0: %s (none violated)' % (shown, w2, r2), labels)
+    full = all(len(E[v]) == n for v in feed)
+    return PASS(bool(subs) and not full and n >= 2, labels)
+
+
+def modular_candidates(case):
+    for c in candidates(case):
+        c = dict(c)
+        fs = set(F.subterms(from_json(c['formula'])))
+        c['subs'] = [x for x in case['subs'] if from_json(x) in fs and from_json(x) != from_json(c['formula'])]
+        if c.get('extra') is not None and not set(F.fvars(from_json(c['extra']))) <= set(c['vars']):
+            c['extra'] = None
+        yield c
+    if case.get('extra') is not None:
+        yield dict(case, extra=None)
+    if len(case['subs']) > 1:
+        for i in range(len(case['subs'])):
+            yield dict(case, subs=case['subs'][:i] + case['subs'][i + 1:])
+
+
 LANES = [
+    Lane('modular', modular_cases, check_modular, 2500, 25000, modular_candidates),
     Lane('violated', lambda tier: cases(tier, False), check, 3000, 40000, candidates),
     Lane('satisfied', lambda tier: cases(tier, True), check, 800, 8000, candidates),
     Lane('splitter', splitter_case, check_splitter, 4000, 40000, splitter_candidates),
